@@ -87,6 +87,7 @@ impl Property for C05 {
             ("sub:identity-commitment".into(), m),
             ("sub:signer-added".into(), m / 2),
             ("sub:signer-dropped".into(), m / 2),
+            ("sub:share-refiled-under-non-participant".into(), m / 2),
             ("signer-side:missing".into(), m),
             ("signer-side:incorrect".into(), m),
             ("fill:all-B-is-valid-session".into(), m),
@@ -322,6 +323,22 @@ fn check<C: Suite>(case: &Case, ctx: &mut Ctx) -> CheckResult {
         }
         // a share with an extra +0 is the same share; with the share of another holder under the wrong id, standalone verify fails (checked above)
         let _ = share_from::<C>(zero::<C>());
+    }
+
+    // a share filed under the identifier of a key holder that does not take part in the session
+    // (the participant set / claimed identifier is replaced in the *share map*; the sum is unchanged)
+    if let Some(out_id) = outsiders.first() {
+        for (i, id) in signers.iter().enumerate() {
+            ctx.eval(&format!("{base},sub,share-refiled-under-non-participant@{i}"), true);
+            ctx.label("sub:share-refiled-under-non-participant");
+            let mut shares = a.shares.clone();
+            let s = shares.remove(id).unwrap();
+            shares.insert(*out_id, s);
+            let r = agg_ok::<C>(&a.package, &shares, &keys.pubkeys);
+            ensure!(ctx, r.is_err(), "C05/aggregate-accepts-foreign-share-identifier", "aggregate accepted the share of signer #{i} filed under the non-participating key holder {} (n={} t={} |S|={})", id_hex::<C>(out_id), shape.n, shape.t, m);
+            let r = frost::aggregate_custom(&a.package, &shares, &keys.pubkeys, frost::CheaterDetection::AllCheaters);
+            ensure!(ctx, r.is_err(), "C05/aggregate-accepts-foreign-share-identifier", "aggregate_custom(AllCheaters) accepted the share of signer #{i} filed under a non-participant");
+        }
     }
 
     // identity commitment in somebody's slot
